@@ -68,6 +68,7 @@ Proof.
   - destruct (e_st (ent s c)); try discriminate.
     destruct (closed s && negb (loaded_on (loops s (e_host (ent s c))) i)); try discriminate. inv_some. simpl. apply upd_etrans. constructor.
   - destruct (e_st (ent s c)); try discriminate. destruct (closed s); try discriminate. inv_some. simpl. apply upd_etrans. constructor.
+  - destruct (e_st (ent s c)); try discriminate. inv_some. simpl. apply upd_etrans. constructor.
 Qed.
 
 Lemma etrans_ret_stable : forall e e' r, etrans e e' -> e_ret e = Some r -> e_ret e' = Some r.
